@@ -591,6 +591,8 @@ func stateRules(c *Ctx) {
 		decodeIntoShared(c, g, short1)
 		// ---- a line scanner with the default token limit
 		scannerLimit(c, g, short1)
+		// ---- an output file opened for overwriting without being truncated
+		openWithoutTruncate(c, g, short1)
 	}
 	// parsers that link features to a local Sequence (shared by C01, C14, C15)
 	switch c.Prop {
@@ -1466,6 +1468,13 @@ func loopVarAddress(c *Ctx, g *ssa.Function, short1 string) {
 				}
 			case *ssa.MapUpdate:
 				kept = x.Value == ssa.Value(a)
+			case *ssa.Go:
+				// handed to a goroutine, which runs on while the loop assigns the next element
+				for _, arg := range x.Call.Args {
+					if arg == ssa.Value(a) {
+						kept = true
+					}
+				}
 			case *ssa.Phi:
 				// p = &v on some iteration, p used once the loop is over
 				seenP := map[*ssa.Phi]bool{}
@@ -3750,5 +3759,52 @@ func scannerLimit(c *Ctx, g *ssa.Function, short1 string) {
 			return
 		}
 		c.bad("STATE", "scanner-limit:"+short1, mk.Pos(), fmt.Sprintf("%s reads its input line by line through a bufio.Scanner with the default 64 KiB token limit: the first line longer than that (a long sequence or base string on one line) ends the scan without an error, and everything from there on is dropped", short1))
+	})
+}
+
+// openWithoutTruncate: a file is opened for writing with os.OpenFile, created if missing, but neither truncated
+// nor opened for appending, and then written from the start: when the new content is shorter than what the
+// file held, the old tail stays behind it and is read back as part of the data.
+func openWithoutTruncate(c *Ctx, g *ssa.Function, short1 string) {
+	eachInstr(g, func(i ssa.Instruction) {
+		cl, ok := i.(*ssa.Call)
+		if !ok || calleeName(cl) != "os.OpenFile" || len(cl.Call.Args) != 3 {
+			return
+		}
+		fl, isC := cl.Call.Args[1].(*ssa.Const)
+		if !isC || fl.Value == nil {
+			return
+		}
+		v, exact := constant.Int64Val(fl.Value)
+		if !exact {
+			return
+		}
+		flag := func(name string, dflt int64) int64 {
+			if op := c.W.Prog.ImportedPackage("os"); op != nil {
+				if nc, ok := op.Members[name].(*ssa.NamedConst); ok && nc.Value != nil && nc.Value.Value != nil {
+					if x, ok := constant.Int64Val(nc.Value.Value); ok {
+						return x
+					}
+				}
+			}
+			return dflt
+		}
+		wr := flag("O_WRONLY", 1) | flag("O_RDWR", 2)
+		if v&wr == 0 || v&flag("O_CREATE", 0x40) == 0 || v&flag("O_TRUNC", 0x200) != 0 || v&flag("O_APPEND", 0x400) != 0 {
+			return
+		}
+		// explicitly truncated afterwards?
+		truncated := false
+		eachInstr(g, func(j ssa.Instruction) {
+			if cj, ok := j.(ssa.CallInstruction); ok {
+				if n := calleeName(cj); n == "(*os.File).Truncate" || n == "os.Truncate" {
+					truncated = true
+				}
+			}
+		})
+		if truncated {
+			return
+		}
+		c.bad("STATE", "open-without-truncate:"+short1, cl.Pos(), fmt.Sprintf("%s opens its output with os.OpenFile flags %#x: created if missing, written from the start, but not truncated: when the file already holds a longer document, its old tail stays behind the new one and is read back with it", short1, v))
 	})
 }
